@@ -49,7 +49,9 @@ func newRich(c *fw.Case, record bool) (*rich, error) {
 	mc := gen.Minters(c.R, gen.MintDenom(c.R), 28)
 	dk := newDistKeys()
 	// base-account sources / destinations of the distributor are plain keys of the harness
-	sds := gen.SubDistributors(c.R, distOpts(dk, true))
+	do := distOpts(dk, true)
+	do.NiceShares = c.Index%8 == 7 // whole-number books (with fees that are multiples of 20)
+	sds := gen.SubDistributors(c.R, do)
 	if sds == nil {
 		return nil, fmt.Errorf("no valid sub-distributor configuration")
 	}
@@ -62,6 +64,7 @@ func newRich(c *fw.Case, record bool) (*rich, error) {
 	if err != nil {
 		return nil, err
 	}
+	e.niceFees = do.NiceShares
 	r := &rich{e: e, mc: mc, dk: dk}
 	horizon := mc.Horizon(c.R)
 	r.times = gen.Partition(c.R, gen.Epoch, horizon, mc.Schedule.Boundaries(horizon, 30), c.R.Intn(2), 400)
